@@ -48,7 +48,7 @@ static void on_big_stack(std::function<void()> job) {
     munmap(stk, sz);
 }
 
-static void rec(Meas &m, const char *fn, size_t v) { size_t &s = m.hw[fn]; if (v > s) s = v; }
+static void rec(Meas &m, const std::string &fn, size_t v) { size_t &s = m.hw[fn]; if (v > s) s = v; }
 
 static Bytes nested_doc(int objs, int arrs, size_t strlen_) {
     // {"a":{"a":...{"a":[[[...[1,"ssss"]...]]]}...}}: identical leaves at every nesting
@@ -77,6 +77,22 @@ static Bytes envelope_doc(int n) {
         encode(o, cur);
     }
     return cur;
+}
+
+// one flat object with n fields whose values cycle through all seven kinds ({} [] int bool double string bytes): whatever a
+// lookup or a skip does per FIELD (rather than per nesting level) shows as growth between 7 and 7000 fields
+static Bytes wide_doc(int n) {
+    Node root; root.t = V_OBJ;
+    for (int i = 0; i < n; i++) {
+        Node c; char nm[16]; snprintf(nm, sizeof nm, "k%06d", i); c.name.assign(nm, nm + 7);
+        switch (i % 7) {
+            case 0: c.t = V_OBJ; break; case 1: c.t = V_ARR; break; case 2: c.t = V_INT; c.i = i; break; case 3: c.t = V_BOOL; c.b = true; break;
+            case 4: c.t = V_DBL; c.d = 0x3ff8000000000000ULL; break; case 5: c.t = V_STR; c.s = Bytes{'s', 's', 's', 's'}; break; default: c.t = V_BYTES; c.s = Bytes{1, 2, 3}; break;
+        }
+        root.kids.push_back(c);
+    }
+    Bytes out; encode(root, out);
+    return out;
 }
 
 static void measure_doc(const Bytes &doc, int depth, Meas &m) {
@@ -146,6 +162,19 @@ static void measure_doc(const Bytes &doc, int depth, Meas &m) {
     binson_parser_reset(&p);
     binson_parser_go_into_object(&p);
     rec(m, "binson_parser_field_ensure_with_length(miss)", painted_call([&] { binson_parser_field_ensure_with_length(&p, "zz", 2, BINSON_TYPE_INTEGER); }));
+    {
+        // every ensure variant with every wanted type, on a name behind all fields (each field is passed and type-checked or skipped)
+        static const binson_type TY[] = {BINSON_TYPE_OBJECT, BINSON_TYPE_ARRAY, BINSON_TYPE_BOOLEAN, BINSON_TYPE_INTEGER, BINSON_TYPE_DOUBLE, BINSON_TYPE_STRING, BINSON_TYPE_BYTES};
+        for (binson_type t : TY) {
+            binson_parser_reset(&p); binson_parser_go_into_object(&p);
+            rec(m, fmt("binson_parser_field_ensure(miss, wanted type %d)", (int)t).c_str(), painted_call([&] { binson_parser_field_ensure(&p, "zz", t); }));
+            binson_parser_reset(&p); binson_parser_go_into_object(&p);
+            rec(m, fmt("binson_parser_field_ensure_with_length(miss, wanted type %d)", (int)t).c_str(), painted_call([&] { binson_parser_field_ensure_with_length(&p, "zz", 2, t); }));
+            binson_parser_reset(&p); binson_parser_go_into_object(&p);
+            rec(m, fmt("binson_parser_next_ensure(wanted type %d)", (int)t).c_str(), painted_call([&] { binson_parser_next_ensure(&p, t); }));
+        }
+        binson_parser_reset(&p);
+    }
     {
         // the same nesting as an array-rooted document: [ <object document> ]
         Bytes ad; ad.push_back(0x42); ad.insert(ad.end(), doc.begin(), doc.end()); ad.push_back(0x43);
@@ -217,13 +246,14 @@ int footprint_cmd(const std::string &json_path, const std::string &replay_dir) {
         {"shallow-small", 1, 1, 4}, {"objects-2", 2, 1, 4}, {"objects-8", 8, 1, 4}, {"objects-64", 64, 1, 4}, {"objects-255", 255, 1, 4},
         {"arrays-8", 1, 8, 4}, {"arrays-64", 1, 64, 4}, {"arrays-255", 1, 255, 4}, {"both-100x100", 100, 100, 4},
         {"string-1000", 1, 1, 1000}, {"string-65000", 1, 1, 65000},
-        {"envelope-1", -1, 1, 0}, {"envelope-8", -8, 1, 0}, {"envelope-60", -60, 1, 0}};
+        {"envelope-1", -1, 1, 0}, {"envelope-8", -8, 1, 0}, {"envelope-60", -60, 1, 0},
+        {"wide-7", 0, 7, 0}, {"wide-700", 0, 700, 0}, {"wide-7000", 0, 7000, 0}};      // objs == 0: flat object with `arrs` fields
     std::vector<Meas> ms(vs.size());
     std::vector<size_t> docsz(vs.size());
     on_big_stack([&] {
         for (size_t i = 0; i < vs.size(); i++) {
-            Bytes d = vs[i].objs < 0 ? envelope_doc(-vs[i].objs) : nested_doc(vs[i].objs, vs[i].arrs, vs[i].slen);
-            int dep = vs[i].objs < 0 ? 10 : vs[i].objs;     // envelopes: spare state levels, as an application using the default depth has
+            Bytes d = vs[i].objs < 0 ? envelope_doc(-vs[i].objs) : vs[i].objs == 0 ? wide_doc(vs[i].arrs) : nested_doc(vs[i].objs, vs[i].arrs, vs[i].slen);
+            int dep = vs[i].objs < 0 ? 10 : vs[i].objs == 0 ? 3 : vs[i].objs;     // envelopes: spare state levels, as an application using the default depth has
             docsz[i] = d.size();
             measure_doc(d, dep, ms[i]);      // warm-up pass (lazy binding, libc one-time initialisation)
             ms[i] = Meas();
@@ -248,9 +278,11 @@ int footprint_cmd(const std::string &json_path, const std::string &replay_dir) {
             size_t v = ms[i].hw.count(kv.first) ? ms[i].hw.at(kv.first) : 0;
             j += fmt("%s\"%s\": %zu", i ? ", " : "", vs[i].name.c_str(), v);
             comparisons++;
-            size_t ref = kv.second;
-            if (vs[i].objs < 0) ref = ms[vs.size() - 3].hw.count(kv.first) ? ms[vs.size() - 3].hw.at(kv.first) : 0;      // envelopes are compared with envelope-1 (same kinds of leaves)
-            if (v > ref + tol) { violations++; fails.push_back(fmt("%s uses %zu bytes of stack on %s (%zu-byte document) but %zu on %s: grows with the input", kv.first.c_str(), v, vs[i].name.c_str(), docsz[i], ref, vs[i].objs < 0 ? "envelope-1" : vs[0].name.c_str())); }
+            size_t ref = kv.second; size_t refi = 0;
+            if (vs[i].objs < 0) refi = vs.size() - 6;          // envelopes are compared with envelope-1 (same kinds of leaves)
+            else if (vs[i].objs == 0) refi = vs.size() - 3;    // wide objects with wide-7
+            if (refi) ref = ms[refi].hw.count(kv.first) ? ms[refi].hw.at(kv.first) : 0;
+            if (v > ref + tol) { violations++; fails.push_back(fmt("%s uses %zu bytes of stack on %s (%zu-byte document) but %zu on %s: grows with the input", kv.first.c_str(), v, vs[i].name.c_str(), docsz[i], ref, vs[refi].name.c_str())); }
             if (v > cap) { violations++; fails.push_back(fmt("%s uses %zu bytes of stack on %s (absolute cap %zu)", kv.first.c_str(), v, vs[i].name.c_str(), cap)); }
         }
         j += "}";
@@ -267,7 +299,6 @@ int footprint_cmd(const std::string &json_path, const std::string &replay_dir) {
             comparisons++;
             size_t tol = kv.first == "binson_writer_verify" ? 128 : 64;
             size_t ref = kv.second;
-            if (vs[i].objs < 0) ref = ms[vs.size() - 3].hw.count(kv.first) ? ms[vs.size() - 3].hw.at(kv.first) : 0;      // envelopes are compared with envelope-1 (same kinds of leaves)
             if (v > ref + tol) { violations++; fails.push_back(fmt("%s uses %zu bytes of stack with a %zu-byte payload but %zu with %zu bytes", kv.first.c_str(), v, pay[i], kv.second, pay[0])); }
             if (v > 4096) { violations++; fails.push_back(fmt("%s uses %zu bytes of stack (absolute cap 4096)", kv.first.c_str(), v)); }
         }
